@@ -348,8 +348,8 @@ impl Property for C30Prop {
     }
     fn budget(&self, tier: Tier) -> Budget {
         match tier {
-            Tier::Quick => Budget { runs: 12_000, wall_cap_s: 38 },
-            Tier::Thorough => Budget { runs: 110_000, wall_cap_s: 340 },
+            Tier::Quick => Budget { runs: 7_000, wall_cap_s: 38 },
+            Tier::Thorough => Budget { runs: 70_000, wall_cap_s: 340 },
         }
     }
     fn modes(&self) -> u32 {
